@@ -14,15 +14,24 @@ from katdal.datasources import (DataSourceNotFound, TelstateDataSource, view_cap
 
 RULE = ('(a) inherit chains of length 0-3: view prefixes; (b) every non-empty subset of the six namespaces of a 1-step '
         'chain (63, exhaustive) and random subsets for longer chains, holding an attribute and a sensor with a distinct '
-        'value per namespace: value seen through the view / TelstateDataSource sensor table; (c) capture block and stream '
-        'overrides: file x URL query x keyword matrix, wrong stream type, unreadable/corrupt RDB; (d) archived flag stream '
-        'sets with types, sources, shapes and dump counts. Non-trivial = key defined in >= 2 namespaces / >= 1 candidate '
-        'flag stream; distinct by full configuration.')
+        'value per namespace; every PAIR of the six namespaces x 3 naming schemes (rank order differs from key length and '
+        'sort order) x both insertion orders; random key sets from a grammar (mutable / immutable keys under view prefixes, '
+        'foreign prefixes, keys equal to a prefix, aliased names) seen through capture-stream views and exclusive views: the '
+        'COMPLETE sensor table name -> key; _relative_view prefixes and lookups; (c) capture block and stream overrides: '
+        'file x URL query x keyword matrix on a file with 3 capture blocks x 4 streams through from_url / open_data_source / '
+        'katdal.open (plain path and file:// URL), wrong stream type, unknown ids; unreadable sources (missing, directory, '
+        'empty, garbage, truncated RDB, unknown schemes) x entry point x keywords; (d) archived flag stream sets with types, '
+        'sources, shapes, dump counts and the placement of stream_type / src_streams / chunk_info among the namespaces of the '
+        'candidate and of its inherit chain (absent included), opened in every way; _align_chunk_info on random chunk '
+        'layouts. Non-trivial = key defined in >= 2 namespaces / >= 1 candidate flag stream / an override present; '
+        'distinct by full configuration.')
 ASSUMPTIONS = ['katsdptelstate view semantics (ordered prefixes, first match) and sorted key order are modelled, not verified',
                'cyclic inherit chains make the real loop diverge and are excluded',
                'all arrays of one stream have the same number of dumps; an archived flag stream holds only a flags array',
                'a source with neither data nor synthesised timestamps (chunk_store=None and timestamps given) derives nothing '
-               'from the streams: only the given timestamps are compared there']
+               'from the streams: only the given timestamps are compared there',
+               'redis:// and http(s):// sources need a network and are not exercised',
+               'a truncated RDB file must be either not found or opened with the content of the complete file']
 
 
 def codes(s):
@@ -118,113 +127,380 @@ def check_placement(ctx, chain, subset_attr, subset_sens):
     ctx.count('placement:chain%d' % len(chain))
 
 
+# --------------------------------------------------------------------------- the whole sensor table
+
+def make_view(ts, cb, chain, kind):
+    """kind: 'capture' = view_capture_stream on the root telstate; 'exclusive' = the same namespaces without the
+    global one (TelstateDataSource accepts any view); 'flat' = cb+stream, cb, stream only (no inherit)."""
+    if kind == 'capture':
+        return view_capture_stream(ts, cb, chain[0])
+    streams = list(reversed(chain)) if kind == 'exclusive' else [chain[0]]
+    v = ts.view(streams[0], exclusive=True)
+    for st_ in streams[1:]:
+        v = v.view(st_)
+    v = v.view(cb)
+    for st_ in streams:
+        v = v.view(ts.join(cb, st_))
+    return v
+
+
+def first_prefix(prefixes, key):
+    for i, p in enumerate(prefixes):
+        if key.startswith(p):
+            return i
+    return None
+
+
+def check_sensor_table(ctx, case):
+    """case: cb, chain, view, keys = [[full key, mutable?], ...] (in insertion order)."""
+    cb, chain, kind = case['cb'], case['chain'], case['view']
+    ts = katsdptelstate.TelescopeState()
+    for a, b in zip(chain, chain[1:]):
+        ts[a + '_inherit'] = b
+    seen = set()
+    case = dict(case, keys=[km for km in case['keys'] if not (km[0] in seen or seen.add(km[0]))])   # one entry per key
+    for i, (k, mut) in enumerate(case['keys']):
+        if mut == 2:
+            ts.set_indexed(k, 'sub', 100 + i)          # an indexed key is no sensor either
+        elif mut:
+            ts.add(k, 200.0 + i, ts=1.0)
+        else:
+            ts[k] = 100 + i
+    view = make_view(ts, cb, chain, kind)
+    prefixes = list(view.prefixes)
+    try:
+        src = TelstateDataSource(view, cb, chain[0], chunk_store=None, timestamps=np.arange(3.0))
+    except Exception as e:   # noqa
+        ctx.disagree('what=sensor_table;view=%s;symptom=raises;exc=%s' % (kind, type(e).__name__), case, repr(e)[:200], None,
+                     'the data source cannot be constructed on this set of keys')
+        ctx.note_case(('sensors', repr(case)))
+        return
+    got = {n: g.name for n, g in src.metadata.sensors.items()}
+    mutable = {k for k, m in case['keys'] if m is True or m == 1}
+    # the DATA of a sensor are those stored under the chosen key
+    stored = {k: 200.0 + i for i, (k, m) in enumerate(case['keys']) if k in mutable}
+    wrong_data = {n: k for n, k in got.items() if k in stored and list(src.metadata.sensors[n].get().value) != [stored[k]]}
+    if wrong_data:
+        ctx.disagree('what=sensor_data;view=%s' % kind, case, wrong_data, None, 'a sensor does not deliver the data stored under its key')
+    # property: for a name that is not aliased, the mutable key of the FIRST namespace of the view that has one
+    names = set(got)
+    for k in mutable:
+        for p in prefixes:
+            if k.startswith(p) and len(k) > len(p):
+                names.add(k[len(p):])
+    exp = {}
+    for n in sorted(names):
+        owners = [p for p in prefixes if p + n in mutable]
+        if all(first_prefix(prefixes, p + n) == prefixes.index(p) for p in owners):
+            exp[n] = owners[0] + n if owners else None
+    nmax = max([sum(1 for p in set(prefixes) if p + n in mutable) for n in names] or [0])
+    if ctx.model_ok:
+        keys = sorted(ts.keys())
+        st = [[codes(k), int(k in mutable), 0] for k in keys]
+        pw = [codes(q) for q in prefixes]
+        order = sorted(names)
+        mo = ctx.model([[18, [13, st, pw]], [18, [3, st, pw, [codes(n) for n in order]]]])
+        mnames = sorted(''.join(map(chr, n)) for n in mo[0])
+        model = {}
+        for n, r in zip(order, mo[1]):
+            if r[0]:
+                model[n] = ''.join(map(chr, r[0][0]))
+            if n in exp and (''.join(map(chr, r[1][0])) if r[1] else None) != exp[n]:
+                ctx.disagree('what=spec_sensor_selfcheck', case, None, r[1], 'Coq spec_sensor differs from harness expectation', spec=exp[n])
+        if mnames != sorted(model):
+            ctx.disagree('what=sensor_names_model', case, None, mnames, 'sensor_names differs from the table of the model', spec=sorted(model))
+        if got != model:
+            ctx.disagree('what=sensor_tie;view=%s' % kind, case, got, model, 'sensor table differs from model', kind='tie')
+    bad = sorted(n for n in exp if got.get(n) != exp[n])
+    if bad:
+        n = bad[0]
+        k = sum(1 for q in set(prefixes) if q + n in mutable)
+        sig = ('sensor;namespaces>=2;less_specific_wins' if k >= 2 and got.get(n) is not None
+               else 'what=sensor_most_specific;namespaces=%d;got=%s' % (k, 'none' if got.get(n) is None else 'other'))
+        ctx.disagree(sig, case, {m: got.get(m) for m in bad}, None,
+                     'sensor not taken from the most specific namespace that defines it', spec={m: exp[m] for m in bad})
+    ctx.traces_validated += 1
+    ctx.note_case(('sensors', repr(case)), nontrivial=nmax >= 2, sample=dict(kind='sensor_table', **case))
+    ctx.count('sensor_table:%s:%s' % (kind, 'multi' if nmax >= 2 else 'single'))
+
+
+NAMINGS = [('cb', ['s', 'base']), ('c', ['stream', 'b']), ('1234567890', ['sdp_l0', 'l0']), ('zz', ['ab', 'ab_c']), ('s', ['s', 't'])]
+
+
+def gen_sensor_case(rng):
+    cb, chain = rng.choice(NAMINGS + [('cb', ['s']), ('cb', ['s', 'b1', 'b2'])])
+    kind = rng.choice(['capture', 'capture', 'exclusive', 'flat'])
+    spec = ['%s_%s_' % (cb, x) for x in chain] + [cb + '_'] + [x + '_' for x in chain] + ['']
+    names = rng.sample(['foo', 'bar', 'x', chain[0] + '_foo', chain[-1] + '_bar', 'foo_bar'], rng.randint(1, 3))
+    keys = {}
+    for n in names:
+        for q in rng.sample(spec, rng.randint(0, min(4, len(spec)))):
+            keys[q + n] = rng.random() < 0.8 or (2 if rng.random() < 0.25 else False)
+    for _ in range(rng.randint(0, 3)):
+        keys[rng.choice(['zz_', 'cb_other_', 'other_', cb]) + rng.choice(names)] = rng.random() < 0.7
+    if rng.random() < 0.3:
+        keys[rng.choice(spec[:-1])] = True            # a key that equals a prefix
+    keys = [[k, m] for k, m in keys.items() if not k.endswith('_inherit') and k]
+    rng.shuffle(keys)
+    return dict(cb=cb, chain=chain, view=kind, keys=keys)
+
+
+# --------------------------------------------------------------------------- _relative_view
+
+def check_relative(ctx, case):
+    """case: cb, chain, view, name, attr_in (indices of the relative namespaces that define 'attr')."""
+    from katdal.visdatav4 import _relative_view
+    cb, chain, kind, name = case['cb'], case['chain'], case['view'], case['name']
+    ts = katsdptelstate.TelescopeState()
+    for a, b in zip(chain, chain[1:]):
+        ts[a + '_inherit'] = b
+    view = ts if kind == 'root' else make_view(ts, cb, chain, kind)
+    prefixes = list(view.prefixes)
+    exp_prefixes = [q + name + '_' for q in prefixes]
+    for i in sorted(i % len(prefixes) for i in case['attr_in']):
+        if exp_prefixes[i] + 'attr' not in ts:          # (a view may list a prefix twice, e.g. capture block = stream)
+            ts[exp_prefixes[i] + 'attr'] = 100 + i
+    ts['attr'] = -1                  # the relative view is exclusive: the global key must not be seen
+    ts[name + '_other'] = 5
+    rv = _relative_view(view, name)
+    got = (list(rv.prefixes), rv.get('attr'), view.get(name + '_attr'))
+    idx = sorted(i % len(prefixes) for i in case['attr_in'])
+    e = 100 + idx[0] if idx else None
+    exp = (exp_prefixes, e, e)
+    if ctx.model_ok:
+        mo = ctx.model([[18, [11, [codes(q) for q in prefixes], codes(name)]]])[0]
+        model = [''.join(map(chr, q)) for q in mo[0]] if mo else None
+        if got[0] != model:
+            ctx.disagree('what=relative_view_tie', case, got[0], model, '_relative_view prefixes differ from model', kind='tie')
+        if mo and mo[0] != mo[1]:
+            ctx.disagree('what=relative_model_vs_spec', case, None, mo[0], 'model of _relative_view differs from Coq spec', spec=mo[1])
+    if got != exp:
+        ctx.disagree('what=relative_view;symptom=%s' % ('prefixes' if got[0] != exp[0] else 'lookup'), case, got, None,
+                     'attributes of another stream are not read relative to the namespaces of the view, most specific first',
+                     spec=exp)
+    ctx.traces_validated += 1
+    ctx.note_case(('relative', repr(case)), nontrivial=len(idx) >= 2, sample=dict(kind='relative_view', **case))
+    ctx.count('relative_view:%s' % kind)
+
+
 # --------------------------------------------------------------------------- ids, types, sources
 
-def make_rdb(tmp):
-    ts = katsdptelstate.TelescopeState()
-    ts['capture_block_id'] = 'cbF'
-    ts['stream_name'] = 'sdp_l0'
-    info = {'correlator_data': {'prefix': 'x', 'chunks': ((2, 2), (4,), (4,)), 'dtype': '<c8', 'shape': (4, 4, 4)}}
-    for s, ty in (('sdp_l0', 'sdp.vis'), ('alt_l0', 'sdp.vis'), ('bad_l0', 'sdp.flags'), ('untyped', None)):
-        v = ts.view(s)
-        if ty:
-            v['stream_type'] = ty
-        v['chunk_info'] = info
-        v['sync_time'] = 1600000000.0
-        v['int_time'] = 2.0
-        v['first_timestamp'] = 10.0
-    path = os.path.join(tmp, 'cbF_sdp_l0.rdb')
-    with RDBWriter(path) as w:
-        w.save(ts)
-    return path
+FILE_CB = '1234567890'
+CBS = (FILE_CB, 'cbK', 'cbU')
+STREAMS = (('sdp_l0', 'sdp.vis'), ('alt_l0', 'sdp.vis'), ('bad_l0', 'sdp.flags'), ('untyped', None))
+ENTRY = ('from_url', 'open_data_source', 'katdal.open')
 
 
-def check_ids(ctx, path, only=None):
-    opts_cb = [None, '', 'cbU']
-    opts_sn = [None, '', 'alt_l0', 'bad_l0', 'untyped', 'missing']
-    # (an empty value in the URL query is dropped by parse_qsl; an empty KEYWORD reaches the `if not x` default)
-    combos = list(itertools.product(opts_cb, [None, '', 'cbK'], opts_sn, [None, '', 'alt_l0', 'sdp_l0']))
-    if only is not None:
-        q, k = only
-        combos = [(q.get('capture_block_id'), k.get('capture_block_id'), q.get('stream_name'), k.get('stream_name'))]
-    elif ctx.tier != 'thorough':
-        combos = ctx.rng.sample(combos, 60)
-    st_vals = None
-    if ctx.model_ok:
-        ts0 = katsdptelstate.TelescopeState()
-        ts0.load_from_file(path)
-        st_vals = abstract_telstate(ts0)
-    for (ucb, kcb, usn, ksn) in combos:
-        query = {}
-        if ucb is not None:
-            query['capture_block_id'] = ucb
-        if usn is not None:
-            query['stream_name'] = usn
-        url = urllib.parse.urlunparse(('file', '', path, '', urllib.parse.urlencode(query), ''))
-        kw = {}
-        if kcb is not None:
-            kw['capture_block_id'] = kcb
-        if ksn is not None:
-            kw['stream_name'] = ksn
-        case = dict(url_query=query, keywords=kw)
-        # spec: keyword beats URL query beats file; empty string falls back to the file
-        ecb = kcb if kcb is not None else ucb
-        ecb = ecb if ecb else 'cbF'
-        esn = ksn if ksn is not None else usn
-        esn = esn if esn else 'sdp_l0'
-        ok_type = esn in ('sdp_l0', 'alt_l0')
+def ids_dumps(cb, sn):
+    return 3 + 4 * CBS.index(cb) + [n for n, _ in STREAMS].index(sn)
+
+
+def build_ids_fixture(layout_seed):
+    """One RDB file with 3 capture blocks x 4 streams; every (capture block, stream) has its own number of dumps, a
+    marker attribute (with less specific decoys) and possibly a sensor 'foo' in some of its namespaces."""
+    import random
+    lrng = random.Random(layout_seed)
+    foo = {}
+
+    def hook(ts, cbid, stream):
+        ts['capture_block_id'] = cbid
+        ts['stream_name'] = stream
+        base = {k: ts[stream + '_' + k] for k in ('sync_time', 'int_time', 'bandwidth', 'center_freq', 'n_chans', 'n_bls',
+                                                  'bls_ordering', 'need_weights_power_scale')}
+        info0 = ts[ts.join(cbid, stream, 'chunk_info')]['correlator_data']
+        for sn, ty in STREAMS:
+            if sn != stream:
+                for k, v in base.items():
+                    ts[ts.join(sn, k)] = v
+                if ty:
+                    ts[ts.join(sn, 'stream_type')] = ty
+            ts[ts.join(sn, 'marker')] = '-/' + sn
+        for cb in CBS:
+            for sn, _ in STREAMS:
+                if (cb, sn) != (cbid, stream):
+                    T = ids_dumps(cb, sn)
+                    ts[ts.join(cb, sn, 'chunk_info')] = {'correlator_data': dict(
+                        info0, shape=(T,) + tuple(info0['shape'][1:]), chunks=((1,) * T,) + tuple(info0['chunks'][1:]))}
+                    ts[ts.join(cb, sn, 'first_timestamp')] = 123.0
+                ts[ts.join(cb, sn, 'marker')] = cb + '/' + sn
+            ts[ts.join(cb, 'marker')] = cb + '/-'
+        ts['marker'] = '-/-'
+        # the defaults are the GLOBAL keys of the file: the same key names in other namespaces are decoys
+        for q, (dcb, dsn) in ((cbid + '_', ('cbU', 'alt_l0')), ('cbK_', ('cbU', 'alt_l0')), (stream + '_', ('cbK', 'alt_l0')),
+                              ('alt_l0_', ('cbK', 'sdp_l0')), (ts.join(cbid, stream) + '_', ('cbK', 'alt_l0'))):
+            ts[q + 'capture_block_id'] = dcb
+            ts[q + 'stream_name'] = dsn
+        spaces = [ts.join(cb, sn) + '_' for cb in CBS for sn, _ in STREAMS] + [cb + '_' for cb in CBS] \
+            + [sn + '_' for sn, _ in STREAMS] + ['']
+        for i, q in enumerate(spaces):
+            if lrng.random() < 0.45:
+                foo[q] = 500.0 + i
+                ts.add(q + 'foo', foo[q], ts=1600000000.0)
+    x = v4.build_v4(T=ids_dumps(FILE_CB, 'sdp_l0'), F=4, construct=False, telstate_hook=hook, seed=1)
+    os.makedirs(os.path.join(x.tmp, x.cbid))
+    x.rdb = os.path.join(x.tmp, x.cbid, '%s_%s.rdb' % (x.cbid, x.stream))
+    with RDBWriter(x.rdb) as w:
+        w.save(x.telstate)
+    x.foo = foo
+    x.layout = layout_seed
+    return x
+
+
+def open_entry(how, url, kw, full=True):
+    """-> observables of the opened source or the class of the error."""
+    import katdal
+    from katdal.datasources import open_data_source
+    try:
+        d = None
+        if how == 'from_url':
+            src = TelstateDataSource.from_url(url, **kw)
+        elif how == 'open_data_source':
+            src = open_data_source(url, **kw)
+        else:
+            d = katdal.open(url, **kw)
+            src = d.source
+    except DataSourceNotFound:
+        return 'DataSourceNotFound'
+    except Exception as e:   # noqa
+        return type(e).__name__
+    if not full:
+        return 'opened'
+    got = dict(cb=src.capture_block_id, sn=src.stream_name, name=src.name, dumps=int(len(src.timestamps)),
+               marker=src.telstate['marker'], foo=src.metadata.sensors['foo'].name if 'foo' in src.metadata.sensors else None)
+    if d is not None:
+        got['dataset_dumps'] = int(d.shape[0])
         try:
-            src = TelstateDataSource.from_url(url, chunk_store=None, **kw)
-            got = (src.capture_block_id, src.stream_name)
-        except ValueError:
-            got = 'ValueError'
+            got['foo_value'] = float(np.unique(d.sensor['foo'])[0])
         except KeyError:
-            got = 'KeyError'
-        exp = (ecb, esn) if ok_type else 'ValueError'
-        if ctx.model_ok:
-            def opt(s):
-                return [codes(s)] if s is not None else []
-            mo = ctx.model([[18, [4, opt(kcb), opt(ucb), opt('cbF')]], [18, [4, opt(ksn), opt(usn), opt('sdp_l0')]],
-                            [18, [5, opt({'sdp_l0': 'sdp.vis', 'alt_l0': 'sdp.vis', 'bad_l0': 'sdp.flags'}.get(esn))]]])
-            mcb = ''.join(map(chr, mo[0][0])) if mo[0] else None
-            msn = ''.join(map(chr, mo[1][0])) if mo[1] else None
-            mexp = (mcb, msn) if mo[2] == 1 else 'ValueError'
-            if mexp != exp:
-                ctx.disagree('what=id_model_vs_spec', case, None, mexp, 'model id resolution differs from spec', spec=exp)
-            # the whole path in the model: ids from keyword / URL query / the keys recorded in the file, the view,
-            # the stream type read through the view (metadata only, timestamps synthesised)
-            mo = ctx.model([[18, [8, [0, [], []], st_vals[0], st_vals[1], opt(kcb), opt(ucb), opt(ksn), opt(usn)]]])[0][0]
-            mgot = (''.join(map(chr, mo[1])), ''.join(map(chr, mo[2]))) if mo[0] == 0 else ERRS.get(mo[1], 'error')
-            if got != mgot and not (esn == 'missing' and got in ('ValueError', 'KeyError')):
-                ctx.disagree('what=id_tie', case, got, mgot, 'from_url differs from the model of the whole opening path', kind='tie')
-        if got != exp and not (esn == 'missing' and got in ('ValueError', 'KeyError')):
-            ctx.disagree('what=id_precedence;type_ok=%s' % ok_type, case, got, None,
-                         'capture block / stream resolution or stream type check differs from file < URL < keyword',
-                         spec=exp)
-        ctx.traces_validated += 1
-        ctx.note_case(('ids', ucb, kcb, usn, ksn), nontrivial=bool(query) or bool(kw), sample=dict(kind='ids', **case))
-        ctx.count('ids')
-    if only is not None:
-        return
-    # unreadable sources are reported as not found
-    bad = os.path.join(os.path.dirname(path), 'corrupt.rdb')
-    with open(bad, 'wb') as f:
-        f.write(b'REDIS0006\xfe\x00garbage' + bytes(range(64)))
-    empty = os.path.join(os.path.dirname(path), 'empty.rdb')
-    open(empty, 'wb').close()
-    for u in (os.path.join(os.path.dirname(path), 'nonexistent.rdb'), bad, empty, 'ftp://host/x.rdb'):
-        try:
-            TelstateDataSource.from_url(u, chunk_store=None)
-            got = 'opened'
-        except DataSourceNotFound:
-            got = 'DataSourceNotFound'
-        except Exception as e:   # noqa
-            got = type(e).__name__
-        if got != 'DataSourceNotFound':
-            ctx.disagree('what=unreadable_source;kind=%s' % os.path.basename(u), dict(url=os.path.basename(u)), got, None,
-                         'unreadable source not reported as DataSourceNotFound', spec='DataSourceNotFound')
-        ctx.note_case(('unreadable', os.path.basename(u)))
-        ctx.count('unreadable')
+            got['foo_value'] = None
+    return got
+
+
+def check_ids(ctx, x, st_vals, combo=None):
+    """combo: how, form ('path' | 'file://'), url query and keywords for capture_block_id / stream_name."""
+    rng = ctx.rng
+    if combo is None:
+        combo = dict(how=rng.choice(ENTRY), form=rng.choice(['path', 'path', 'file://']),
+                     url_query={}, keywords={})
+        for key, uopts, kopts in (('capture_block_id', [None, None, 'cbU', 'cbK', 'cbX'], [None, None, '', 'cbK', 'cbU']),
+                                  ('stream_name', [None, None, 'alt_l0', 'bad_l0', 'untyped', 'missing', 'sdp_l0'],
+                                   [None, None, '', 'alt_l0', 'sdp_l0', 'bad_l0'])):
+            u, k = rng.choice(uopts), rng.choice(kopts)
+            if u is not None:
+                combo['url_query'][key] = u
+            if k is not None:
+                combo['keywords'][key] = k
+    combo = dict(combo, layout=x.layout)
+    query, kw, how = combo['url_query'], combo['keywords'], combo['how']
+    url = ('file://' if combo['form'] == 'file://' else '') + x.rdb + ('?' + urllib.parse.urlencode(query) if query else '')
+    got = open_entry(how, url, dict(kw, chunk_store=None))
+    # spec: keyword beats URL query beats file; an empty value falls back to the file
+    ucb, kcb, usn, ksn = query.get('capture_block_id'), kw.get('capture_block_id'), query.get('stream_name'), kw.get('stream_name')
+    ecb = (kcb if kcb is not None else ucb) or FILE_CB
+    esn = (ksn if ksn is not None else usn) or 'sdp_l0'
+    if dict(STREAMS).get(esn) != 'sdp.vis':
+        exp = 'ValueError'
+    elif ecb not in CBS:
+        exp = 'KeyError'                       # nothing defines the chunk info of that capture block
+    else:
+        spaces = [ecb + '_' + esn + '_', ecb + '_', esn + '_', '']
+        fkey = next((q + 'foo' for q in spaces if q in x.foo), None)
+        exp = dict(cb=ecb, sn=esn, name=ecb + '_' + esn, dumps=ids_dumps(ecb, esn), marker=ecb + '/' + esn, foo=fkey)
+        if how == 'katdal.open':
+            exp['dataset_dumps'] = exp['dumps']
+            exp['foo_value'] = x.foo[fkey[:-3]] if fkey else None
+    if ctx.model_ok:
+        def opt(v):
+            return [codes(v)] if v is not None else []
+        hw = [0, 1, [1, int(combo['form'] == 'file://')]][ENTRY.index(how)]
+        mo = ctx.model([[18, [12, hw, codes('file'), [], [0, [], []], st_vals[0], st_vals[1],
+                              opt(kcb), opt(ucb), opt(ksn), opt(usn)]]])[0]
+
+        def dec(r):
+            if r[0] != 0:
+                return ERRS.get(r[1], 'error%d' % r[1])
+            return (''.join(map(chr, r[1])), ''.join(map(chr, r[2])), r[3])
+        m_model, m_spec = dec(mo[0]), dec(mo[1])
+        if m_model != m_spec:
+            ctx.disagree('what=id_model_vs_spec', combo, None, m_model, 'model of the entry point differs from Coq spec', spec=m_spec)
+        g = (got['cb'], got['sn'], got['dumps']) if isinstance(got, dict) else got
+        e = (exp['cb'], exp['sn'], exp['dumps']) if isinstance(exp, dict) else exp
+        if m_spec != e:
+            ctx.disagree('what=id_spec_selfcheck', combo, None, m_spec, 'Coq spec differs from harness expectation', spec=e)
+        if g != m_model:
+            ctx.disagree('what=id_tie;how=%s' % how, combo, g, m_model, 'entry point differs from the model of the whole opening path',
+                         kind='tie')
+    if got != exp:
+        if isinstance(got, dict) and isinstance(exp, dict):
+            symptom = next(k for k in ('cb', 'sn', 'name', 'dumps', 'marker', 'foo', 'dataset_dumps', 'foo_value') if got.get(k) != exp.get(k))
+        else:
+            symptom = 'opened' if isinstance(got, dict) else str(got)
+        ctx.disagree('what=id_precedence;how=%s;type_ok=%s;symptom=%s' % (how, exp != 'ValueError', symptom), combo, got, None,
+                     'capture block / stream resolution (file < URL query < keyword), stream type check or what is read through '
+                     'the resolved view differs', spec=exp)
+    ctx.traces_validated += 1
+    ctx.note_case(('ids', repr(combo)), nontrivial=bool(query) or bool(kw), sample=dict(kind='ids', **combo))
+    ctx.count('ids:%s:%s' % (how, 'override' if query or kw else 'defaults'))
+
+
+UNREADABLE = ('missing', 'directory', 'empty', 'garbage', 'truncated', 'scheme:ftp', 'scheme:s3', 'scheme:foo')
+
+
+def check_unreadable(ctx, x, case=None):
+    """An unreadable source is DataSourceNotFound through every entry point, whatever else is asked for."""
+    rng = ctx.rng
+    if case is None:
+        case = dict(kind=rng.choice(UNREADABLE), how=rng.choice(ENTRY), keywords=rng.choice([{}, {}, {'capture_block_id': 'cbK'},
+                    {'stream_name': 'alt_l0', 'upgrade_flags': False}]), chunk_store=rng.choice(['none', 'auto']),
+                    url_query=rng.choice([{}, {}, {'stream_name': 'alt_l0'}]))
+        if case['kind'] == 'truncated':
+            case['cut'] = rng.random()
+    case = dict(case, layout=x.layout)
+    kind = case['kind']
+    d = os.path.dirname(x.rdb)
+    p = os.path.join(d, 'unreadable_%s.rdb' % kind.replace(':', '_'))
+    exc, opened_ok = 'RdbParseError', False
+    if kind == 'missing':
+        exc = 'OSError'
+    elif kind == 'directory':
+        os.makedirs(p, exist_ok=True)
+        exc = 'OSError'
+    elif kind == 'empty':
+        open(p, 'wb').close()
+    elif kind == 'garbage':
+        with open(p, 'wb') as f:
+            f.write(b'REDIS0006\xfe\x00garbage' + bytes(range(64)))
+    elif kind == 'truncated':
+        data = open(x.rdb, 'rb').read()
+        n = int(case['cut'] * (len(data) - 9))            # the last 9 bytes are the end marker and the checksum
+        with open(p, 'wb') as f:
+            f.write(data[:n])
+    else:
+        p = kind.split(':')[1] + '://host/' + os.path.basename(x.rdb)
+    url = p + ('?' + urllib.parse.urlencode(case['url_query']) if case['url_query'] else '')
+    kw = dict(case['keywords'])
+    if case['chunk_store'] == 'none':
+        kw['chunk_store'] = None
+    try:
+        got = open_entry(case['how'], url, kw, full=False)
+    finally:
+        if kind == 'directory':
+            shutil.rmtree(p, ignore_errors=True)
+        elif os.path.isfile(p):
+            os.remove(p)
+    if ctx.model_ok:
+        scheme = kind.split(':')[1] if kind.startswith('scheme:') else 'file'
+        hw = [0, 1, [1, int(kind.startswith('scheme:'))]][ENTRY.index(case['how'])]
+        mo = ctx.model([[18, [12, hw, codes(scheme), [] if kind.startswith('scheme:') else [codes(exc)],
+                              [int(case['chunk_store'] != 'none'), [], []], [], [], [], [], [], []]]])[0]
+        if mo[0] != [-1, 5] or mo[1] != [-1, 5]:
+            ctx.disagree('what=unreadable_model', case, None, mo[0], 'model / Coq spec do not classify the source as not found', spec=mo[1])
+    if got != 'DataSourceNotFound':
+        ctx.disagree('what=unreadable_source;kind=%s;how=%s;got=%s' % (kind.split(':')[0], case['how'], got), case, got, None,
+                     'unreadable source not reported as DataSourceNotFound', spec='DataSourceNotFound')
+    ctx.traces_validated += 1
+    ctx.note_case(('unreadable', repr(case)), nontrivial=True, sample=dict(kind_='unreadable', **case))
+    ctx.count('unreadable:%s:%s' % (kind.split(':')[0], case['how']))
 
 
 # --------------------------------------------------------------------------- flag streams x every way of opening
@@ -250,7 +526,7 @@ def abstract_telstate(ts):
             a = [1, [codes(e) for e in v]]
         elif isinstance(v, dict) and any(isinstance(i, dict) and 'shape' in i for i in v.values()):
             info = v.get('flags') or v.get('correlator_data') or next(iter(v.values()))
-            a = [2, int(info['shape'][0]), [int(n) for n in info['shape'][1:]]]
+            a = [2, int(info['shape'][0]), [int(n) for n in info['shape'][1:]], int('prefix' in info)]
         else:
             a = [3]
         st.append([codes(k), int(mut), len(vals)])
@@ -259,28 +535,73 @@ def abstract_telstate(ts):
 
 
 def build_flag_fixture(case, seed):
-    """case: T, F, candidates [name, T, F, type, src] -> fixtures.v4 object + RDB file next to its chunk store."""
+    """case: T, F, candidates [name, T, F, type, src, ...] -> fixtures.v4 object + RDB file next to its chunk store.
+
+    Per candidate (all optional): type / src = values in its stream namespace (None = absent); cb_type / cb_src = values
+    in its capture-block + stream namespace; inherit = parent stream (another candidate, a helper of case['parents'],
+    or the opened stream itself); info_at = where its chunk info lives: 'cs' (capture block + stream, default), 's'
+    (stream), 'p' / 'cp' (the parent's stream / capture block + stream namespace), 'none' (absent).
+    case['parents'] = helper streams that are not archived: name, type, src, cb_type, cb_src, inherit."""
     T, F, B = case['T'], case['F'], 12
     cands = []
     for i, c in enumerate(case['candidates']):
         fl = np.full((c['T'], c['F'], c.get('B', B)), 0x10 + i + 1, np.uint8)
-        cands.append(dict(name=c['name'], flags=fl, type=c['type'], src=c['src'], chunks=(1, c['F'], c.get('B', B))))
+        cands.append(dict(name=c['name'], flags=fl, type=c['type'], src=c['src'] or [], chunks=(1, c['F'], c.get('B', B))))
     own = np.full((T, F, B), 0x10, np.uint8)
 
     def hook(ts, cbid, stream):
         ts['capture_block_id'] = cbid
         ts['stream_name'] = stream
-        for c in case['candidates']:
-            cs = ts.view(ts.join(cbid, c['name']), exclusive=True)
+        for c in list(case['candidates']) + list(case.get('parents') or []):
+            nm = c['name']
+            cs = ts.view(ts.join(cbid, nm), exclusive=True)
+            sv = ts.view(nm, exclusive=True)
+            if c in (case.get('parents') or []):
+                if c.get('type') is not None:
+                    sv['stream_type'] = c['type']
+                if c.get('src') is not None:
+                    sv['src_streams'] = list(c['src'])
+            elif c['src'] is None:
+                ts.delete(ts.join(nm, 'src_streams'))
             if c.get('cb_type') is not None:
                 cs['stream_type'] = c['cb_type']
             if c.get('cb_src') is not None:
                 cs['src_streams'] = list(c['cb_src'])
             if c.get('inherit'):
-                ts.view(c['name'], exclusive=True)['inherit'] = c['inherit']
+                sv['inherit'] = c['inherit']
+            at = c.get('info_at', 'cs')
+            if at != 'cs' and c not in (case.get('parents') or []):
+                key = ts.join(cbid, nm, 'chunk_info')
+                info = ts[key]
+                ts.delete(key)
+                if at == 's':
+                    sv['chunk_info'] = info
+                elif at == 'p':
+                    ts[ts.join(c['inherit'], 'chunk_info')] = info
+                elif at == 'cp':
+                    ts[ts.join(cbid, c['inherit'], 'chunk_info')] = info
         if case.get('archived_decoy') is not None:
             # the real list lives in the capture block namespace, a less specific decoy in the global one
             ts.view(cbid, exclusive=True)['sdp_archived_streams'] = [stream] + [c['name'] for c in case['candidates']]
+        # chunk infos without their own 'prefix': the chunk name is a key of its own (own_prefix / prefix_at = the
+        # namespace that holds it: 'cs', 's', the parent's 'cp' / 'p', or 'none')
+
+        def strip(key, where):
+            info = ts[key]
+            name = next(iter(info.values()))['prefix']
+            ts.delete(key)
+            ts[key] = {k: {kk: vv for kk, vv in v.items() if kk != 'prefix'} for k, v in info.items()}
+            if where is not None:
+                ts[where + 'chunk_name'] = name
+        if case.get('own_prefix', 'info') != 'info':
+            strip(ts.join(cbid, stream, 'chunk_info'), {'cs': ts.join(cbid, stream) + '_', 's': stream + '_'}.get(case['own_prefix']))
+        for c in case['candidates']:
+            at, iat = c.get('prefix_at', 'info'), c.get('info_at', 'cs')
+            if at != 'info' and iat != 'none':
+                nm, par = c['name'], c.get('inherit')
+                key = {'cs': ts.join(cbid, nm), 's': nm, 'p': par, 'cp': ts.join(cbid, par or '')}[iat] + '_chunk_info'
+                strip(key, {'cs': ts.join(cbid, nm) + '_', 's': nm + '_', 'p': (par or '') + '_',
+                            'cp': ts.join(cbid, par or '') + '_'}.get(at))
     decoy = case.get('archived_decoy')
     x = v4.build_v4(T=T, F=F, arrays={'flags': own}, flag_streams=cands, seed=seed,
                     chunks={'correlator_data': (1, F, B)}, construct=False, telstate_hook=hook,
@@ -293,41 +614,77 @@ def build_flag_fixture(case, seed):
     return x
 
 
-def effective(case, c, key):
-    """Attribute of an archived stream per the property: capture block + stream, capture block + inherited streams,
-    (capture block), stream, inherited streams.  key: 'type' | 'src'."""
-    by_name = {d['name']: d for d in case['candidates']}
-    chain = [c]
-    while chain[-1].get('inherit') in by_name:
-        chain.append(by_name[chain[-1]['inherit']])
-    for d in chain:
-        if d.get('cb_' + key) is not None:
-            return d['cb_' + key]
-    for d in chain:
-        if d.get(key) is not None:
-            return d[key]
+def spec_chain(ts, stream):
+    chain = [stream]
+    while ts.get(chain[-1] + '_inherit') is not None and len(chain) < 20:
+        chain.append(ts[chain[-1] + '_inherit'])
+    return chain
+
+
+def spec_namespaces(ts, cb, stream, base=('',)):
+    """The order of the property: capture block + stream, capture block + inherited streams, capture block, stream,
+    inherited streams, then whatever the view is stacked on (global for the opened stream)."""
+    chain = spec_chain(ts, stream)
+    return ['%s_%s_' % (cb, st_) for st_ in chain] + [cb + '_'] + [st_ + '_' for st_ in chain] + list(base)
+
+
+def spec_get(ts, spaces, key):
+    for q in spaces:
+        if q + key in ts:
+            return ts[q + key]
     return None
 
 
-def spec_of_mode(case, mode):
-    """What the property says: dumps / flags of the data set for this way of opening."""
-    T, F, B = case['T'], case['F'], 12
+def flat_get(ts, cb, stream, key):
+    """NOT the property: only the places where the attributes usually are (used to count how often placement decides)."""
+    for q in (['%s_%s_' % (cb, stream)] if key in ('chunk_info', 'chunk_name') else [stream + '_']):
+        if q + key in ts:
+            return ts[q + key]
+    return None
+
+
+def spec_of_mode(case, mode, ts, cb='1234567890', stream='sdp_l0', flat=False):
+    """What the property says for this way of opening, from the content of the (root) telstate `ts`."""
     has_store = mode['store'] != 'none'
     upgrade = True if mode['upgrade'] is None else mode['upgrade']
     n_ts = mode['n_ts']
     if not has_store and n_ts is not None:
         return dict(dumps=n_ts, ts_ok=True)          # nothing is derived from the streams
-    cands = case['candidates']
-    matching = [(i, c) for i, c in enumerate(cands)
-                if effective(case, c, 'type') == 'sdp.flags' and 'sdp_l0' in (effective(case, c, 'src') or [])] if upgrade else []
-    if any(c['F'] != F or c.get('B', B) != B for _, c in matching):
-        return 'ValueError'
-    wi, win = matching[-1] if matching else (None, None)
-    wT = win['T'] if win else T
+    l0 = spec_namespaces(ts, cb, stream)
+    own = spec_get(ts, l0, 'chunk_info')
+    if 'prefix' not in own['flags'] and spec_get(ts, l0, 'chunk_name') is None:
+        return 'KeyError'                            # nothing says where the chunks of the stream are
+    T = own['correlator_data']['shape'][0]
+    rest = tuple(own['flags']['shape'][1:])
+    win = None
+    names = [c['name'] for c in case['candidates']]
+    for a in (spec_get(ts, l0, 'sdp_archived_streams') or []) if upgrade else []:
+        spaces = spec_namespaces(ts, cb, a, base=l0)
+        get = (lambda k: flat_get(ts, cb, a, k)) if flat else (lambda k: spec_get(ts, spaces, k))
+        if get('stream_type') != 'sdp.flags':
+            continue
+        src = get('src_streams')
+        if src is None:
+            return 'KeyError'
+        if stream not in src:
+            continue
+        info = get('chunk_info')
+        if info is None:
+            return 'KeyError'
+        where = info['flags'].get('prefix') or (flat_get(ts, cb, a, 'chunk_name') if flat else spec_get(ts, spaces, 'chunk_name'))
+        if where is None:
+            return 'KeyError'
+        if tuple(info['flags']['shape'][1:]) != rest:
+            return 'ValueError'
+        win = dict(info, where=where)
+    wT = win['flags']['shape'][0] if win else T
     n = max(T, wT)
     exp = dict(dumps=n if n_ts is None else n_ts, ts_ok=True)
     if has_store:
-        exp.update(data_dumps=n, flag_value=(0x10 + wi + 1) if win else 0x10, clean_dumps=min(T, wT), lost_ok=True)
+        value = 0x10
+        if win is not None and win['where'][len(cb) + 1:].replace('-', '_') != stream:
+            value = 0x10 + names.index(win['where'][len(cb) + 1:].replace('-', '_')) + 1
+        exp.update(data_dumps=n, flag_value=value, clean_dumps=min(T, wT), lost_ok=True)
     return exp
 
 
@@ -365,6 +722,8 @@ def open_mode(x, case, mode):
             src = d.source
     except ValueError:
         return 'ValueError'
+    except KeyError:
+        return 'KeyError'
     except Exception as e:   # noqa
         return 'construct:' + type(e).__name__
     try:
@@ -403,46 +762,48 @@ def check_open(ctx, case, mode, x=None, st_vals=None):
         got = open_mode(x, case, mode)
         if ctx.model_ok and st_vals is None:
             st_vals = abstract_telstate(x.telstate)
+        exp = spec_of_mode(case, mode, x.telstate)
+        full = dict(case, mode=mode)
+        if ctx.model_ok:
+            def opt(v):
+                return [codes(v)] if v is not None else []
+            st, vals = st_vals
+            q = mode.get('query') or {}
+            kcb, ksn = (x.cbid, x.stream) if mode['how'] == 'ctor' else (None, None)
+            wm = [int(mode['store'] != 'none'), [] if mode['upgrade'] is None else [int(mode['upgrade'])],
+                  [] if mode['n_ts'] is None else [mode['n_ts']]]
+            mo = ctx.model([[18, [8, wm, st, vals, opt(kcb), opt(q.get('capture_block_id')), opt(ksn), opt(q.get('stream_name'))]]])[0]
+            names = [c['name'] for c in case['candidates']]
+
+            def decode(r):
+                if r[0] == -1:
+                    return ERRS.get(r[1], 'error%d' % r[1])
+                out = dict(dumps=r[3], ts_ok=True)
+                if r[4]:
+                    info = x.telstate[''.join(map(chr, st[r[4][1]][0]))]      # the chunk info the flags come from
+                    where = x.telstate[''.join(map(chr, st[r[4][2]][0]))]     # ... and what names the place of its chunks
+                    where = where if isinstance(where, str) else where['flags']['prefix']
+                    where = where[len(x.cbid) + 1:].replace('-', '_')
+                    idx = None if where == x.stream else names.index(where)
+                    out.update(data_dumps=r[4][0], flag_value=0x10 if idx is None else 0x10 + idx + 1,
+                               clean_dumps=min(case['T'], info['flags']['shape'][0]), lost_ok=True)
+                return out
+            m_model, m_spec = decode(mo[0]), decode(mo[1])
+            if m_model != m_spec:
+                ctx.disagree('what=open_model_vs_spec', full, None, m_model, 'model of opening differs from Coq spec', spec=m_spec)
+            if m_spec != exp:
+                ctx.disagree('what=open_spec_selfcheck', full, None, m_spec, 'Coq spec of opening differs from harness expectation', spec=exp)
+            if got != m_model:
+                ctx.disagree('what=open_tie;how=%s' % mode['how'], full, got, m_model, 'opened data set differs from model', kind='tie')
     finally:
         if own_x:
             v4.cleanup(x)
-    exp = spec_of_mode(case, mode)
-    full = dict(case, mode=mode)
-    if ctx.model_ok:
-        def opt(s):
-            return [codes(s)] if s is not None else []
-        st, vals = st_vals
-        q = mode.get('query') or {}
-        kcb, ksn = (x.cbid, x.stream) if mode['how'] == 'ctor' else (None, None)
-        wm = [int(mode['store'] != 'none'), [] if mode['upgrade'] is None else [int(mode['upgrade'])],
-              [] if mode['n_ts'] is None else [mode['n_ts']]]
-        mo = ctx.model([[18, [8, wm, st, vals, opt(kcb), opt(q.get('capture_block_id')), opt(ksn), opt(q.get('stream_name'))]]])[0]
-
-        def decode(r):
-            if r[0] == -1:
-                return ERRS.get(r[1], 'error%d' % r[1])
-            out = dict(dumps=r[3], ts_ok=True)
-            if r[4]:
-                key = ''.join(map(chr, st[r[4][1]][0]))      # the chunk_info key the flags come from
-                nm = key[len(x.cbid) + 1:-len('_chunk_info')]
-                idx = [c['name'] for c in case['candidates']].index(nm) if nm != x.stream else None
-                fd = case['candidates'][idx]['T'] if idx is not None else case['T']
-                out.update(data_dumps=r[4][0], flag_value=0x10 if idx is None else 0x10 + idx + 1,
-                           clean_dumps=min(case['T'], fd), lost_ok=True)
-            return out
-        m_model, m_spec = decode(mo[0]), decode(mo[1])
-        if m_model != m_spec:
-            ctx.disagree('what=open_model_vs_spec', full, None, m_model, 'model of opening differs from Coq spec', spec=m_spec)
-        if m_spec != exp:
-            ctx.disagree('what=open_spec_selfcheck', full, None, m_spec, 'Coq spec of opening differs from harness expectation', spec=exp)
-        if got != m_model:
-            ctx.disagree('what=open_tie;how=%s' % mode['how'], full, got, m_model, 'opened data set differs from model', kind='tie')
     if got != exp:
         if isinstance(got, dict) and isinstance(exp, dict):
             symptom = next((k for k in ('dumps', 'ts_ok', 'data', 'data_dumps', 'flag_value', 'clean_dumps', 'lost_ok')
                             if got.get(k) != exp.get(k)), 'other')
         else:
-            symptom = ('not_refused' if exp == 'ValueError' else str(got))
+            symptom = ('not_refused' if isinstance(got, dict) else str(got))
         ctx.disagree('what=open_span;how=%s;data=%s;timestamps=%s;symptom=%s'
                      % (mode['how'], 'no' if mode['store'] == 'none' else 'yes',
                         'synthesised' if mode['n_ts'] is None else 'given', symptom), full, got, None,
@@ -463,28 +824,75 @@ def gen_flag_case(rng):
                           type=rng.choice(['sdp.flags', 'sdp.flags', 'sdp.flags', 'sdp.vis', None]),
                           src=rng.choice([['sdp_l0'], ['sdp_l0'], ['other'], ['other', 'sdp_l0'], []])))
     case = dict(T=T, F=F, candidates=cands)
+    parents = []
     for c in cands:
         if c['F'] == F and rng.random() < 0.08:
             c['B'] = 8                       # same channels, different number of baselines
-    # placements: attributes of a candidate in its capture-block namespace (more specific than its stream namespace,
-    # which then holds a different value), inherited from another archived stream, list of archived streams
-    # defined in the capture block namespace with a less specific decoy in the global one
+    # placements: the attributes of a candidate (stream_type, src_streams, chunk_info) in its capture-block namespace
+    # (more specific than its stream namespace, which then holds a different value), absent from its own namespaces
+    # and inherited (from another archived stream, from a helper stream that is not archived, from the opened stream),
+    # absent altogether; the list of archived streams in the capture block namespace with a decoy in the global one
     for i, c in enumerate(cands):
         r = rng.random()
-        if r < 0.2:
+        if r < 0.15:
             c['cb_type'] = rng.choice(['sdp.flags', 'sdp.vis'])
-        elif r < 0.3:
+        elif r < 0.25:
             c['cb_src'] = rng.choice([['sdp_l0'], ['other']])
-        elif r < 0.45 and i > 0:
+        elif r < 0.37 and i > 0:
             c['inherit'] = cands[rng.randrange(i)]['name']
             if rng.random() < 0.7:
                 c['type'] = None
+            if rng.random() < 0.4:
+                c['src'] = None
+            if rng.random() < 0.3:
+                c['info_at'] = 'none'
+        elif r < 0.55:
+            par = dict(name='par%d' % i, type=rng.choice(['sdp.flags', 'sdp.flags', 'sdp.vis', None]),
+                       src=rng.choice([['sdp_l0'], ['sdp_l0'], ['other'], None]))
+            q = rng.random()
+            if q < 0.25:
+                par['cb_type'] = rng.choice(['sdp.flags', 'sdp.vis'])
+            elif q < 0.5:
+                par['cb_src'] = rng.choice([['sdp_l0'], ['other']])
+            parents.append(par)
+            c['inherit'] = par['name']
+            c['type'] = rng.choice([None, None, c['type']])
+            c['src'] = rng.choice([None, None, c['src']])
+            c['info_at'] = rng.choice(['cs', 's', 'p', 'cp'])
+        elif r < 0.63:
+            c['inherit'] = 'sdp_l0'           # as in production: the flags stream inherits the stream it flags
+            c['type'] = rng.choice([None, c['type'], 'sdp.flags'])
+            c['info_at'] = rng.choice(['cs', 'cs', 's', 'none'])
+        elif r < 0.70:
+            c['src'] = None
+            c['info_at'] = rng.choice(['cs', 's', 'none'])
+    if parents:
+        case['parents'] = parents
+    r = rng.random()
+    if r < 0.15:
+        case['own_prefix'] = 'cs' if r < 0.10 else 's' if r < 0.14 else 'none'
+    reach = set()
+    if 'own_prefix' in case:
+        # outside the abstraction (a chunk info = its flags array): a candidate whose chain reaches the opened stream and
+        # whose own info is not the most specific one picks up the prefix-less info of the opened stream, ALL arrays of
+        # which would then take the candidate's chunk name
+        for c in cands:
+            if c.get('inherit') == 'sdp_l0' or c.get('inherit') in reach:
+                reach.add(c['name'])
+                c.pop('info_at', None)
+    for c in cands:
+        if c.get('info_at', 'cs') != 'none' and rng.random() < 0.3:
+            opts = ['cs', 'cs', 's'] + (['p', 'cp'] if str(c.get('inherit', '')).startswith('par') else []) \
+                + (['none'] if 'own_prefix' not in case else [])
+            c['prefix_at'] = rng.choice(opts)
+            if 'own_prefix' in case and c['name'] in reach:
+                c['prefix_at'] = 'cs'        # (else the chunk name of the opened stream, more specific, would be taken)
     if cands and rng.random() < 0.25:
         case['archived_decoy'] = rng.choice([[], [cands[0]['name']], [c['name'] for c in reversed(cands)]])
     return case
 
 
-def all_modes(case, rng, cbid='1234567890'):
+def all_modes(case, rng, ts, cbid='1234567890'):
     """Every way of opening: how x (chunk store given / found automatically / none) x timestamps synthesised or
     given; the upgrade_flags keyword (absent, True, False) and the URL query are drawn per mode."""
     out = []
@@ -494,7 +902,7 @@ def all_modes(case, rng, cbid='1234567890'):
                 up = rng.choice([None, None, True, False])
                 mode = dict(how=how, store=store, upgrade=up, n_ts=None)
                 if given:
-                    e = spec_of_mode(case, dict(mode, store='given'))
+                    e = spec_of_mode(case, dict(mode, store='given'), ts)
                     mode['n_ts'] = e['dumps'] if isinstance(e, dict) else case['T']
                 if how != 'ctor':
                     mode['query'] = rng.choice([{}, {}, {'stream_name': 'sdp_l0'},
@@ -508,41 +916,80 @@ def all_modes(case, rng, cbid='1234567890'):
 def check_flag_streams(ctx, case=None, n_modes=None):
     rng = ctx.rng
     case = case or gen_flag_case(rng)
-    modes = all_modes(case, rng)
-    if n_modes is not None:
-        # always keep one metadata-only and one with-data opening with synthesised timestamps
-        synth = [m for m in modes if m['n_ts'] is None]
-        first = [rng.choice([m for m in synth if m['store'] == 'none']), rng.choice([m for m in synth if m['store'] != 'none'])]
-        for m in first:
-            if m['upgrade'] is False:
-                m['upgrade'] = None
-        rest = [m for m in modes if m not in first]
-        modes = first + rng.sample(rest, max(0, n_modes - 2))
     x = build_flag_fixture(case, ctx.seed)
     try:
+        modes = all_modes(case, rng, x.telstate)
+        if n_modes is not None:
+            # always keep one metadata-only and one with-data opening with synthesised timestamps
+            synth = [m for m in modes if m['n_ts'] is None]
+            first = [rng.choice([m for m in synth if m['store'] == 'none']), rng.choice([m for m in synth if m['store'] != 'none'])]
+            for m in first:
+                if m['upgrade'] is False:
+                    m['upgrade'] = None
+            rest = [m for m in modes if m not in first]
+            modes = first + rng.sample(rest, max(0, n_modes - 2))
         st_vals = None
         for mode in modes:
             st_vals = check_open(ctx, case, mode, x=x, st_vals=st_vals)
+        ctx.count('flag_streams:%d' % len(case['candidates']))
+        # how often the namespace placement of the candidates' attributes decides the outcome
+        m0 = dict(how='ctor', store='given', upgrade=True, n_ts=None)
+        if case.get('archived_decoy') is not None or case.get('parents') \
+                or 'own_prefix' in case \
+                or any(set(c) - {'name', 'T', 'F', 'B', 'type', 'src'} or c['src'] is None for c in case['candidates']):
+            ctx.count('flag_layout:varied')
+            full, flat = spec_of_mode(case, m0, x.telstate), spec_of_mode(case, m0, x.telstate, flat=True)
+            if full != flat:
+                ctx.count('flag_layout:decides_outcome')
+            if full in ('KeyError', 'ValueError'):
+                ctx.count('flag_layout:' + full)
     finally:
         v4.cleanup(x)
-    ctx.count('flag_streams:%d' % len(case['candidates']))
-    # how often the namespace placement of the candidates' attributes decides the outcome
-    plain = dict(T=case['T'], F=case['F'],
-                 candidates=[{k: c[k] for k in ('name', 'T', 'F', 'B', 'type', 'src') if k in c} for c in case['candidates']])
-    m0 = dict(how='ctor', store='given', upgrade=True, n_ts=None)
-    if case.get('archived_decoy') is not None or any(set(c) - {'name', 'T', 'F', 'B', 'type', 'src'} for c in case['candidates']):
-        ctx.count('flag_layout:varied')
-        dec = dict(plain, candidates=[c for c in plain['candidates'] if c['name'] in (case.get('archived_decoy') or [])]) \
-            if case.get('archived_decoy') is not None else plain
-        if spec_of_mode(plain, m0) != spec_of_mode(case, m0) or spec_of_mode(dec, m0) != spec_of_mode(case, m0):
-            ctx.count('flag_layout:decides_outcome')
+
+
+# --------------------------------------------------------------------------- _align_chunk_info on its own
+
+def check_align(ctx, arrays=None):
+    """arrays: list of (time chunks, trailing shape) -> the real _align_chunk_info against the model / the rule."""
+    from katdal.datasources import _align_chunk_info
+    rng = ctx.rng
+    if arrays is None:
+        arrays = []
+        for _ in range(rng.randint(1, 4)):
+            chunks = [rng.randint(1, 4) for _ in range(rng.choice([0, 1, 1, 2, 3, 5]))]
+            arrays.append([chunks, rng.choice([[], [4], [4, 12]])])
+        if rng.random() < 0.3:
+            arrays.append(list(arrays[0]))
+    info = {}
+    for i, (chunks, tail) in enumerate(arrays):
+        info['a%d' % i] = {'prefix': 'p', 'dtype': '<u1', 'shape': (sum(chunks),) + tuple(tail),
+                          'chunks': (tuple(chunks),) + tuple((n,) for n in tail)}
+    out = _align_chunk_info({k: dict(v) for k, v in info.items()})
+    got = [[list(out[k]['chunks'][0]), list(out[k]['shape']), [list(c) for c in out[k]['chunks'][1:]]] for k in sorted(info)]
+    mx = max(sum(c) for c, _ in arrays)
+    exp = [[list(c) + [1] * (mx - sum(c)), [mx] + list(t), [[n] for n in t]] for c, t in arrays]
+    case = dict(arrays=arrays)
+    if ctx.model_ok:
+        mo = ctx.model([[18, [7, [c for c, _ in arrays]]]])[0]
+        if [g[0] for g in got] != mo:
+            ctx.disagree('what=align_tie', case, [g[0] for g in got], mo, '_align_chunk_info differs from model', kind='tie')
+    if got != exp:
+        ctx.disagree('what=align;arrays=%d' % len(arrays), case, got, None,
+                     'arrays are not extended to the longest one by one-dump chunks appended after their own chunks', spec=exp)
+    ctx.traces_validated += 1
+    ctx.note_case(('align', repr(arrays)), nontrivial=len({sum(c) for c, _ in arrays}) > 1, sample=dict(kind='align', **case))
+    ctx.count('align')
 
 
 def run(ctx):
     rng = ctx.rng
     for f in ctx.findings:
         w = f['witness']
-        check_placement(ctx, w['chain'], w['attr'], w['sensor'])
+        if 'keys' in w:
+            check_sensor_table(ctx, w)
+            check_sensor_table(ctx, dict(w, view='exclusive'))
+        else:
+            check_placement(ctx, w['chain'], w['attr'], w['sensor'])
     chains = [['s'], ['s', 'base'], ['s', 'b1', 'b2'], ['sdp_l0', 'b1', 'b2', 'b3'], ['a', 'a_b']]
     for ch in chains:
         check_prefixes(ctx, ch)
@@ -557,13 +1004,44 @@ def run(ctx):
         sa = sorted(rng.sample(range(npre), rng.randint(0, min(3, npre))))
         ss = sorted(rng.sample(range(npre), rng.randint(0, min(3, npre))))
         check_placement(ctx, ch, sa, ss)
-    tmp = v4.scratch_dir('c18')
+    # every PAIR of the six namespaces defines the same sensor name; naming schemes in which the more specific
+    # namespace has the shorter / the longer / the alphabetically later key; both insertion orders
+    npairs = 0
+    for cb, chain in NAMINGS:
+        spec = ['%s_%s_' % (cb, x) for x in chain] + [cb + '_'] + [x + '_' for x in chain] + ['']
+        for i, j in itertools.combinations(range(6), 2):
+            for order in ((i, j), (j, i)):
+                check_sensor_table(ctx, dict(cb=cb, chain=chain, view='capture', keys=[[spec[k] + 'foo', True] for k in order]))
+                npairs += 1
+    ctx.extra['namespace_pairs_x_namings_x_orders'] = npairs
+    for _ in range(ctx.scale(250, 2500)):
+        check_sensor_table(ctx, gen_sensor_case(rng))
+    for _ in range(ctx.scale(40, 400)):
+        cb, chain = rng.choice(NAMINGS)
+        kind = rng.choice(['capture', 'capture', 'exclusive', 'flat', 'root'])
+        check_relative(ctx, dict(cb=cb, chain=chain, view=kind, name=rng.choice(['cal', 'sdp_l1_flags', chain[0]]),
+                                 attr_in=sorted(rng.sample(range(6), rng.randint(0, 3)))))
+    for _ in range(ctx.scale(40, 400)):
+        check_align(ctx)
+    # capture block / stream named by file, URL query, keyword - through every entry point; unreadable sources
+    x = build_ids_fixture(rng.randrange(1 << 30))
     try:
-        check_ids(ctx, make_rdb(tmp))
+        st_vals = abstract_telstate(x.telstate) if ctx.model_ok else None
+        for how in ENTRY:                      # the defaults recorded in the file, and one full override, per entry point
+            check_ids(ctx, x, st_vals, dict(how=how, form='path', url_query={}, keywords={}))
+            check_ids(ctx, x, st_vals, dict(how=how, form='path', url_query={'capture_block_id': 'cbU', 'stream_name': 'alt_l0'},
+                                            keywords={'capture_block_id': 'cbK'}))
+        for _ in range(ctx.scale(120, 1200)):
+            check_ids(ctx, x, st_vals)
+        for kind in UNREADABLE:
+            for how in ENTRY:
+                check_unreadable(ctx, x, dict(kind=kind, how=how, keywords={}, chunk_store='none', url_query={}, cut=0.5))
+        for _ in range(ctx.scale(30, 300)):
+            check_unreadable(ctx, x)
     finally:
-        shutil.rmtree(tmp, ignore_errors=True)
+        v4.cleanup(x)
     # flag streams x every way of opening: two fixtures opened in ALL ways, the others in a sample of ways
-    for k in range(ctx.scale(30, 300)):
+    for k in range(ctx.scale(40, 400)):
         check_flag_streams(ctx, n_modes=None if k < 2 else 6)
     # a longer flag stream opened as metadata only / with data, deterministic (the shape of seeded change C18-2)
     fixed = dict(T=3, F=4, candidates=[dict(name='fl0', T=5, F=4, type='sdp.flags', src=['sdp_l0'])])
@@ -573,24 +1051,51 @@ def run(ctx):
                 dict(T=3, F=4, candidates=[dict(name='fl0', T=3, F=4, B=8, type='sdp.flags', src=['sdp_l0'])])):
         for how, store in (('ctor', 'none'), ('katdal.open', 'none'), ('katdal.open', 'auto')):
             check_open(ctx, bad, dict(how=how, store=store, upgrade=None, n_ts=None, query={}, dataset=True))
+    # the attributes of a flags stream that inherits (as in production) the stream it flags / a helper stream:
+    # its type, sources and chunk info each only reachable through the chain
+    prod = [dict(T=3, F=4, candidates=[dict(name='fl0', T=5, F=4, type='sdp.flags', src=['sdp_l0'], inherit='sdp_l0')]),
+            dict(T=3, F=4, candidates=[dict(name='fl0', T=5, F=4, type=None, src=None, inherit='par0', info_at='cp')],
+                 parents=[dict(name='par0', type='sdp.flags', src=['sdp_l0'])]),
+            dict(T=3, F=4, candidates=[dict(name='fl0', T=5, F=4, type='sdp.flags', src=['sdp_l0'], inherit='par0', info_at='p')],
+                 parents=[dict(name='par0', type='sdp.vis', src=['other'], cb_type='sdp.cal')]),
+            dict(T=3, F=4, candidates=[dict(name='fl0', T=4, F=4, type='sdp.flags', src=None)]),
+            dict(T=3, F=4, candidates=[dict(name='fl0', T=4, F=4, type='sdp.flags', src=['sdp_l0'], info_at='none')]),
+            # chunk infos without 'prefix' (older files): every stream's chunk name is found through ITS OWN view
+            dict(T=3, F=4, own_prefix='cs', candidates=[dict(name='fl0', T=5, F=4, type='sdp.flags', src=['sdp_l0'], prefix_at='cs')]),
+            dict(T=3, F=4, own_prefix='s', candidates=[dict(name='fl0', T=3, F=4, type='sdp.flags', src=['sdp_l0'], prefix_at='cp',
+                                                            inherit='par0', info_at='cs')],
+                 parents=[dict(name='par0', type=None, src=None)]),
+            dict(T=3, F=4, candidates=[dict(name='fl0', T=3, F=4, type='sdp.flags', src=['sdp_l0'], prefix_at='none')])]
+    for c in prod:
+        for how, store in (('ctor', 'given'), ('katdal.open', 'none')):
+            check_open(ctx, c, dict(how=how, store=store, upgrade=None, n_ts=None, query={}, dataset=True))
 
 
 def replay(ctx, doc):
     case = doc['case']
-    if 'attr_in' in case:
+    if 'attr_in' in case and 'name' in case:
+        check_relative(ctx, case)
+    elif 'attr_in' in case:
         chain = case['chain']
         prefixes = ['cb_%s_' % s for s in chain] + ['cb_'] + [s + '_' for s in chain] + ['']
         check_placement(ctx, chain, [prefixes.index(p) for p in case['attr_in']], [prefixes.index(p) for p in case['sensor_in']])
+    elif 'keys' in case:
+        check_sensor_table(ctx, case)
+    elif 'arrays' in case:
+        check_align(ctx, case['arrays'])
     elif 'chain' in case:
         check_prefixes(ctx, case['chain'])
     elif 'mode' in case:
         mode = case['mode']
         check_open(ctx, {k: v for k, v in case.items() if k != 'mode'}, mode)
-    elif 'url_query' in case:
-        tmp = v4.scratch_dir('c18')
+    elif 'kind' in case or 'form' in case:
+        x = build_ids_fixture(case.get('layout', 0))
         try:
-            check_ids(ctx, make_rdb(tmp), only=(case['url_query'], case['keywords']))
+            if 'kind' in case:
+                check_unreadable(ctx, x, case)
+            else:
+                check_ids(ctx, x, abstract_telstate(x.telstate) if ctx.model_ok else None, case)
         finally:
-            shutil.rmtree(tmp, ignore_errors=True)
+            v4.cleanup(x)
     else:
         run(ctx)
